@@ -437,7 +437,7 @@ def field_values(ctx, w, signed, enum_vals):
     if w <= 8 or ctx.thorough:
         return list(range(lo, hi + 1))
     vals = set(bvals(w, signed))
-    while len(vals) < 400:
+    while len(vals) < 1200:
         vals.add(ctx.rng.randint(lo, hi))
     return sorted(vals)
 
@@ -486,6 +486,9 @@ class Batch:
 
     def add(self, stream, inp, real, line):
         self.items.append((stream, inp, out_s(real), line))
+        self.total = getattr(self, "total", 0) + 1
+        if len(self.items) >= 250_000:   # bound memory in the thorough tier (one driver start per chunk)
+            self.flush()
 
     def flush(self):
         ctx = self.ctx
@@ -594,7 +597,7 @@ def check_sweeps(ctx, batch):
 
 def check_random(ctx, batch):
     rng = ctx.rng
-    n = ctx.scale(250, 6000)
+    n = ctx.scale(500, 6000)
     for hdr in HDRS:
         for _ in range(n):
             t = gen_wf(hdr, rng, reserved_zero=rng.random() < 0.7)
@@ -610,7 +613,7 @@ def check_decoders(ctx, batch):
     """decoder streams on raw octets: random (mostly non-conformant: reserved codes, reserved bits), every HT x HST
     nibble pair, every NH nibble, every ST code, short and over-long inputs (error stream)"""
     rng = ctx.rng
-    n = ctx.scale(200, 5000)
+    n = ctx.scale(400, 5000)
 
     def one(hdr, data, tag):
         rd = real_dec(hdr, data)
@@ -708,10 +711,16 @@ def now_tst():
     return TST.set_in_normal_timestamp_milliseconds(NOW_MS).msec
 
 
+def mib5(mibp):
+    """[version, mobile, default hop limit, default lifetime s, default traffic class octet] (older cases: 4 entries)"""
+    return list(mibp) + [0] * (5 - len(mibp))
+
+
 def mk_mib(mibp, addr_t3, **kw):
-    version, mobile, dhl, dlife = mibp
+    version, mobile, dhl, dlife, dtc = mib5(mibp)
     return MIB(itsGnLocalGnAddr=mk_addr(addr_t3), itsGnProtocolVersion=version, itsGnIsMobile=GnIsMobile(mobile),
-               itsGnDefaultHopLimit=dhl, itsGnDefaultPacketLifetime=dlife, itsGnMaxGeoAreaSize=10 ** 9, **kw)
+               itsGnDefaultHopLimit=dhl, itsGnDefaultPacketLifetime=dlife, itsGnDefaultTrafficClass=dtc,
+               itsGnMaxGeoAreaSize=10 ** 9, **kw)
 
 
 def mk_router(mibp, ego, **kw):
@@ -797,14 +806,15 @@ def life_ms_eff(rq):
 def expected(case, lt_octet):
     """the packet the standard prescribes (EN 302 636-4-1 10.3: field settings per packet type); the LT octet is
     judged separately by value"""
-    kind, (version, mobile, dhl, dlife), ego = case["kind"], case["mib"], case["ego"]
+    kind, (version, mobile, dhl, dlife, dtc), ego = case["kind"], mib5(case["mib"]), case["ego"]
     sn = (case.get("sn_prev", 0) + 1) % 65535
     lt_m, lt_b = lt_octet >> 2, lt_octet & 3
+    dtc3 = (dtc >> 7, (dtc >> 6) & 1, dtc & 63)    # TC of beacon / LS packets: itsGnDefaultTrafficClass
     if kind == "beacon":
-        nh, ht, hst, tc, pl, mhl, data = 0, 1, 0, (0, 0, 0), 0, 1, b""
+        nh, ht, hst, tc, pl, mhl, data = 0, 1, 0, dtc3, 0, 1, b""
         ext = ref_pack(R_LPV, lpv_ref(ego))
     elif kind in ("lsq", "lsr"):
-        nh, ht, hst, tc, pl, mhl, data = 0, 6, 0 if kind == "lsq" else 1, (0, 0, 0), 0, dhl, b""
+        nh, ht, hst, tc, pl, mhl, data = 0, 6, 0 if kind == "lsq" else 1, dtc3, 0, dhl, b""
         if kind == "lsq":
             ext = ref_pack(R_LSQ, [sn, 0] + lpv_ref(ego) + ga_ref(case["sought"]))
         else:
@@ -832,7 +842,7 @@ def expected(case, lt_octet):
 def want_lifetime_ms(case):
     if case["kind"] in ("shb", "gbc", "gac", "guc") and case["req"]["life_ms"] is not None:
         return life_ms_eff(case["req"])
-    return case["mib"][3] * 1000
+    return mib5(case["mib"])[3] * 1000
 
 
 def judge_packet(ctx, case, sent, report=True):
@@ -856,6 +866,8 @@ def judge_packet(ctx, case, sent, report=True):
                 else:
                     diffs = {i for i in range(len(pkt)) if pkt[i] != exp[i]}
                     version, mobile = case["mib"][0], case["mib"][1]
+                    if case["kind"] in ("beacon", "lsq", "lsr") and 6 in diffs and pkt[6] == 0 and mib5(case["mib"])[4] != 0:
+                        pass  # TC 0 instead of itsGnDefaultTrafficClass: plain violation (finding C02-F5, fixed)
                     if 0 in diffs and version != 1 and pkt[0] >> 4 == 1 and (pkt[0] & 15) == (exp[0] & 15):
                         diffs.discard(0)
                         out.append((f"{case['kind']}: version nibble 1 on the wire, itsGnProtocolVersion = {version}", "C02-KF2"))
@@ -889,7 +901,7 @@ def variant():
 
 def model_line(case, var):
     kind = case["kind"]
-    head = f"pkt {'gbc' if kind == 'gac' else kind} " + " ".join(str(v) for v in var + list(case["mib"]))
+    head = f"pkt {'gbc' if kind == 'gac' else kind} " + " ".join(str(v) for v in var + mib5(case["mib"]))
     ego = " ".join(str(v) for v in case["ego"])
     sn = (case.get("sn_prev", 0) + 1) % 65535
     if kind == "beacon":
@@ -922,8 +934,9 @@ def g_ego(rng, tst=None):
 
 def g_mib(rng, plain=False):
     if plain:
-        return [1, rng.randint(0, 1), rng.choice([1, 2, 10, 255]), rng.choice([1, 60, 600])]
-    return [rng.choice([1, 1, 1, 0, 2, 15]), rng.randint(0, 1), rng.choice([1, 2, 10, 128, 255]), rng.choice([1, 5, 60, 63, 600])]
+        return [1, rng.randint(0, 1), rng.choice([1, 2, 10, 255]), rng.choice([1, 60, 600]), 0]
+    return [rng.choice([1, 1, 1, 0, 2, 15]), rng.randint(0, 1), rng.choice([1, 2, 10, 128, 255]), rng.choice([1, 5, 60, 63, 600]),
+            rng.choice([0, 0, 1, 63, 64, 128, 255, rng.randint(0, 255)])]
 
 
 def g_req(rng, kind):
@@ -984,7 +997,7 @@ def run_packet_cases(ctx, batch, cases, var, tag):
 
 def check_packets(ctx, batch, var):
     rng = ctx.rng
-    n = ctx.scale(120, 2500)
+    n = ctx.scale(220, 2500)
     cases = []
     for kind in KINDS:
         for _ in range(n):
@@ -1008,6 +1021,12 @@ def check_packets(ctx, batch, var):
         c = g_case(rng, "shb", plain_mib=True)
         c["req"]["tc"] = [tc >> 7, (tc >> 6) & 1, tc & 63]
         cases.append(c)
+    # every default traffic class octet through beacon and LS request (C02-F5)
+    for dtc in range(0, 256, ctx.scale(3, 1)):
+        for kind in ("beacon", "lsq", "lsr"):
+            c = g_case(rng, kind, plain_mib=True)
+            c["mib"][4] = dtc
+            cases.append(c)
     run_packet_cases(ctx, batch, cases, var, "orig")
 
 
@@ -1059,7 +1078,7 @@ def build_fwd_case(rng, kind):
 
 
 def forward(case):
-    r, ll, inds = mk_router([1, 1, 10, 60], case["fwd_ego"], itsGnAreaForwardingAlgorithm=AreaForwardingAlgorithm.SIMPLE)
+    r, ll, inds = mk_router([1, 1, 10, 60, 0], case["fwd_ego"], itsGnAreaForwardingAlgorithm=AreaForwardingAlgorithm.SIMPLE)
     with rs.quiet():
         r.gn_data_indicate(bytes.fromhex(case["pkt"]))
     return ll.take()
@@ -1083,7 +1102,7 @@ def judge_forward(ctx, case, sent, report=True):
 def check_forwarding(ctx, batch):
     rng = ctx.rng
     for kind in ("tsb", "gbc", "gac", "guc", "lsq", "lsr"):
-        for _ in range(ctx.scale(60, 1500)):
+        for _ in range(ctx.scale(120, 1500)):
             case = build_fwd_case(rng, kind)
             try:
                 sent = forward(case)
@@ -1138,8 +1157,8 @@ def run(ctx):
             check_forwarding(ctx, batch)
     finally:
         router_mod.Timer = threading.Timer
-    ctx.cover("model_lines", len(batch.items))
-    batch.flush()   # ONE driver call for the whole run (driver start-up dominates otherwise)
+    batch.flush()
+    ctx.cover("model_lines", getattr(batch, "total", 0))   # ONE driver call for the whole run (driver start-up dominates otherwise)
     if ctx.thorough:
         ctx.exhaustive = True   # every <=16-bit field of every header enumerated completely (other fields random)
 
@@ -1216,7 +1235,10 @@ def replay(ctx, obj):
                         print(("KNOWN " + fid + ": " if fid in known else "") + w)
                     if not res:
                         print("packet conforms")
-                    return bool(res)   # a known finding's witness still violates the property (it is only not *reported* by run)
+                    unknown = [w for w, fid in res if fid not in known]
+                    if res and not unknown:
+                        print("only deviations under known findings (suppressed by the check, listed as KNOWN-FINDING)")
+                    return bool(unknown)
                 try:
                     sent = forward(case["case"])
                 except Exception as e:  # noqa: BLE001
